@@ -568,7 +568,44 @@ def run_C16(ctx):
     replay_texts(ctx, "roundtrip", recs, keep=lambda f: "round trip" in f["reason"] or "panicked" in f["reason"])
 
 
+def run_C17(ctx):
+    consts = dict(BASE_CONSTS)
+    consts.update({"Fams": {"enc", "builder"}, "Seed": ctx.seed, "Rate": 8 if ctx.quick else 1})
+    r = run_tlc(f"{ctx.prop}-isa", "MC_Isa", consts, invariants=["Inv"], workers=10, timeout=2400)
+    if r.violation:
+        ctx.violation("MC_Isa: Encode / Decode are not inverse in the specification, or Asm disagrees with Encode: " + r.violation[:300],
+                      {"kind": "tlc", "model": "MC_Isa", "output": r.violation[:4000]})
+    ctx.add_tlc("MC_Isa", r)
+    recs = r.replay
+    ctx.nontrivial = len({json.dumps(x["bytes"]) + json.dumps(x.get("ctor")) for x in recs})
+    ctx.extra["slots"] = sum(1 for x in recs if x["kind"] == "enc")
+    ctx.extra["builder_cases"] = sum(1 for x in recs if x["kind"] == "builder")
+    path = os.path.join(ctx.workdir, "isa.ndjson")
+    open(path, "w").write("\n".join(json.dumps(x) for x in recs) + "\n")
+    rep_path = os.path.join(ctx.workdir, "isa.report.json")
+    rv(["encs", "--cases", path, "--report", rep_path], timeout=3000)
+    rep = json.load(open(rep_path))
+    ctx.evaluations += rep["records"]
+    ctx.traces += rep["pass"]
+    for s_ in rep["samples"]:
+        ctx.sample(s_)
+    for f in rep["failures"]:
+        ctx.violation(f["reason"], {"kind": "enc", "record": f["record"]})
+    if not ctx.quick:
+        core.build_harness(release=True)
+        sw = os.path.join(ctx.workdir, "sweep.json")
+        rv(["encs", "--sweep-imm", "--report", sw], release=True, timeout=3000)
+        srep = json.load(open(sw))
+        ctx.evaluations += srep["immediates"]
+        ctx.extra["all_2^32_immediates_swept"] = srep["immediates"]
+        ctx.notes.append("the 2^32 sweep is auxiliary (plain Rust loop): it extends the lane law, which the specification checks per lane, to every immediate")
+        for b in srep["bad"]:
+            ctx.violation(b, {"kind": "enc-sweep", "what": b})
+
+
 CHECKS = {
+    "C17": {"level": "model_checking", "run": run_C17, "assumptions": ASSUME_COMMON,
+            "rule": "MC_Isa: slots varying each byte position over all 256 values in 3 contexts (opcode, register byte, 4 immediate lanes) and the two offset bytes over all 65,536 values; invariant Encode(Decode(s)) = s and Decode(Encode(Decode(s))) = Decode(s); replayed through Insn::to_array, Insn::to_vec, get_insn at indices 0/1/7/1000, to_insn_vec; every builder constructor x Source x Arch x MemSize x Cond x Endian x boundary fields against Isa!Encode, Insn::to_array and (where a mnemonic exists) Asm / assemble; distinct by slot / constructor+fields"},
     "C13": {"level": "model_checking", "run": run_C13, "assumptions": ASSUME_COMMON + ["the harness's renderer (tokens -> text) is the only concrete-syntax step"],
             "rule": "MC_Text asm families: every mnemonic x its operand shape(s) x registers {0,9,10,15,16,99} x offsets around +-32768 x immediates around +-2^31 x 4 spellings (decimal/hex, explicit sign); every mnemonic with every other shape's operands; non-mnemonics; multi-instruction sequences (order, error in the middle, mnemonic after an operand-less instruction); literal classes up to 40 digits; Asm!Assemble gives bytes or refusal, DecodeOK checked in the model; replayed through rbpf::assembler::assemble; distinct by token program"},
     "C14": {"level": "exploration", "run": run_C14, "assumptions": ASSUME_COMMON,
@@ -612,6 +649,13 @@ def replay(prop, path):
         tmp = os.path.join(WORK, "replay_one.ndjson")
         open(tmp, "w").write(json.dumps(rec["record"]) + "\n")
         rv(["texts", "--cases", tmp, "--report", os.path.join(WORK, "replay_one.report.json")], check=False)
+        rep = json.load(open(os.path.join(WORK, "replay_one.report.json")))
+        print(json.dumps([f["reason"] for f in rep["failures"]] or "agrees with the specification", indent=1)[:3000])
+        return 1 if rep["fail"] else 0
+    if kind == "enc":
+        tmp = os.path.join(WORK, "replay_one.ndjson")
+        open(tmp, "w").write(json.dumps(rec["record"]) + "\n")
+        rv(["encs", "--cases", tmp, "--report", os.path.join(WORK, "replay_one.report.json")], check=False)
         rep = json.load(open(os.path.join(WORK, "replay_one.report.json")))
         print(json.dumps([f["reason"] for f in rep["failures"]] or "agrees with the specification", indent=1)[:3000])
         return 1 if rep["fail"] else 0
@@ -719,5 +763,10 @@ MANIFEST_TEXT.update({
     "C16": {"technique": "round-trip law checked by TLC on the composition Asm o Disasm of the two TLA+ specifications, and replayed on the implementation",
             "text": "RoundTrip is an invariant of the bounded model (a statement about the two specifications fitting together); since C13 and C15 bind each tool to its specification the law carries over, and it is additionally checked directly on the code for every enumerated program.",
             "note": NOTE_COMMON},
+})
+MANIFEST_TEXT.update({
+    "C17": {"technique": "TLA+ slot encoding (Isa.tla) checked inverse by TLC per field exhaustively; every slot and builder constructor replayed through the public encoders/decoders",
+            "text": "Per-field exhaustive: each byte position of the slot takes all values (offsets all 65,536) with the other fields on boundaries, TLC checks Encode and Decode inverse on each and the harness checks that both encoders, the decoder at several indices, the builder and the assembler agree with it; the thorough tier sweeps all 2^32 immediates in Rust.",
+            "note": NOTE_COMMON + " Fields are exhaustive one at a time (the encoding is byte-wise), not in the full 2^64 product."},
 })
 NOT_APPLICABLE = {}
